@@ -139,6 +139,15 @@ func ParseResponse(data []byte, req *http.Request) (resp *Response, err error) {
 	if err != nil {
 		return nil, errors.Join(errInvalidResponse, fmt.Errorf("failed to read response: %w", err))
 	}
+	// The whole entry is in memory: read the body now, so that an entry whose bytes end
+	// early (a truncated file, a store returning part of a value) is rejected here - and
+	// the request served by the origin - instead of being returned as a response whose
+	// body fails, or is silently empty, in the caller's hands.
+	body, err := io.ReadAll(r.Body)
+	if err != nil {
+		return nil, errors.Join(errInvalidResponse, fmt.Errorf("stored body is incomplete: %w", err))
+	}
+	r.Body = io.NopCloser(bytes.NewReader(body))
 	// Hop-by-hop fields are removed before an entry is stored, so a Connection field
 	// found here ("Connection: close" for close-delimited bodies) is framing added by
 	// the serialization, not part of the origin's response.
